@@ -226,4 +226,95 @@ theorem cti_opposite_segments (span maxDelta R minSeg : Int) (segs : List Seg)
           omega
         rw [this]; rfl
 
+/-! ### segment 0 of the `ProjDataInfoCTI` table (repaired code: `max_delta ≥ span/2` is required) -/
+
+theorem cti_go_head (span maxDelta : Int) (fuel : Nat) (acc : List (Int × Int)) (curMax : Int) (x : Int × Int) (rest : List (Int × Int))
+    (h : acc = x :: rest) : ∃ rest', ctiPositive.go span maxDelta fuel acc curMax = x :: rest' := by
+  induction fuel generalizing acc curMax rest with
+  | zero => exact ⟨rest, by unfold ctiPositive.go; exact h⟩
+  | succ n ih =>
+    unfold ctiPositive.go
+    split
+    · exact ih (acc ++ [(curMax + 1, curMax + span)]) (curMax + span) (rest ++ [(curMax + 1, curMax + span)]) (by rw [h]; rfl)
+    · exact ⟨rest, h⟩
+
+
+theorem cti_min0_max0 (span : Int) (hs : 1 ≤ span) :
+    (if span.tmod 2 == 1 then -((span - 1).tdiv 2) else -(span.tdiv 2)) = -(span.tdiv 2) ∧
+    (if span.tmod 2 == 1 then (if span.tmod 2 == 1 then -((span - 1).tdiv 2) else -(span.tdiv 2)) + span - 1
+      else (if span.tmod 2 == 1 then -((span - 1).tdiv 2) else -(span.tdiv 2)) + span) = span.tdiv 2 := by
+  have a := (C01.tdiv2_spec span).1 (by omega)
+  have b := (C01.tdiv2_spec (span - 1)).1 (by omega)
+  have c := C01.tmod2_spec span
+  by_cases h : span.tmod 2 = 1
+  · simp only [h, beq_self_eq_true, if_true]
+    rw [c, a] at h
+    rw [a, b]
+    constructor <;> omega
+  · have h' : (span.tmod 2 == 1) = false := by simp [h]
+    simp only [h', Bool.false_eq_true, if_false]
+    rw [c, a] at h
+    rw [a]
+    constructor <;> first | trivial | omega
+
+/-- segment 0 of the table of `ProjDataInfoCTI` is symmetric: ring differences `-span/2 … span/2` -/
+theorem ctiPositive_head (span maxDelta R : Int) (pos : List Seg) (h : ctiPositive span maxDelta R = some pos) :
+    ∃ s0 rest, pos = s0 :: rest ∧ s0.minRD = -(span.tdiv 2) ∧ s0.maxRD = span.tdiv 2 := by
+  unfold ctiPositive at h
+  split at h
+  · exact absurd h (by simp)
+  · rename_i hvalid
+    have hs : 1 ≤ span := by omega
+    have hmd : span.tdiv 2 ≤ maxDelta := by omega
+    obtain ⟨e0, e1⟩ := cti_min0_max0 span hs
+    simp only [] at h
+    rw [e1, e0] at h
+    obtain ⟨rest', hgo⟩ := cti_go_head span maxDelta R.toNat [(-(span.tdiv 2), span.tdiv 2)] (span.tdiv 2) _ [] rfl
+    rw [hgo] at h
+    injection h with h
+    cases rest' with
+    | nil =>
+      simp only [List.getLast?_singleton] at h
+      rw [if_neg (by omega)] at h
+      simp only [List.mapIdx_cons, List.mapIdx_nil] at h
+      exact ⟨_, _, h.symm, rfl, rfl⟩
+    | cons y ys =>
+      cases hl : (((-(span.tdiv 2), span.tdiv 2) :: y :: ys).getLast?) with
+      | none => simp at hl
+      | some lh =>
+        rw [hl] at h
+        obtain ⟨lo, hi⟩ := lh
+        simp only [] at h
+        by_cases hc : hi > maxDelta
+        · rw [if_pos hc, List.dropLast_cons_cons, List.cons_append, List.mapIdx_cons] at h
+          exact ⟨_, _, h.symm, rfl, rfl⟩
+        · rw [if_neg hc, List.mapIdx_cons] at h
+          exact ⟨_, _, h.symm, rfl, rfl⟩
+
+
+/-- segment 0 is symmetric about ring difference 0, hence has average ring difference (obliqueness) 0 -/
+theorem cti_segment0 (span maxDelta R minSeg : Int) (segs : List Seg)
+    (h : ctiSegments span maxDelta R = some (minSeg, segs)) :
+    ∃ s0, segAt minSeg segs 0 = some s0 ∧ s0.minRD = -s0.maxRD ∧ s0.avgRD = 0 := by
+  unfold ctiSegments at h
+  cases hp : ctiPositive span maxDelta R with
+  | none => rw [hp] at h; exact absurd h (by simp)
+  | some pos =>
+    rw [hp] at h
+    simp only [Option.map_some, Option.some.injEq, Prod.mk.injEq] at h
+    obtain ⟨hmin, hsegs⟩ := h
+    subst hmin hsegs
+    obtain ⟨s0, rest, hpos, h1, h2⟩ := ctiPositive_head span maxDelta R pos hp
+    refine ⟨s0, ?_, by omega, ?_⟩
+    · unfold segAt
+      have hlen : ((pos.drop 1).reverse.map Seg.mirror).length = pos.length - 1 := by simp
+      have hpl : 0 < pos.length := by rw [hpos]; simp
+      rw [if_neg (by omega)]
+      have i1 : (0 - -((pos.length : Int) - 1)).toNat = pos.length - 1 := by omega
+      rw [i1, List.getElem?_append_right (by omega), hlen]
+      simp [hpos]
+    · unfold Seg.avgRD
+      have : s0.minRD + s0.maxRD = 0 := by omega
+      rw [this]; simp
+
 end StirVerif.C12
